@@ -1,4 +1,4 @@
-import Aqua.Exec.Instr
+import Aqua.Exec.LensBase
 import Aqua.Gen.Lens
 /-
 C24 — replica of the lens applier, function by function:
@@ -80,36 +80,7 @@ def lambdaErrVariant : LambdaErr → String
   | .canonStreamMapAccessorHasInvalidType _ => "CanonStreamMapAccessorHasInvalidType"
   | .canonStreamMapAccessorMustNotBeIterable => "CanonStreamMapAccessorMustNotBeIterable"
 
-/-! ## `stream_map_key.rs` -/
-
-inductive StreamMapKey where
-  | str (s : String)
-  | u64 (n : Nat)
-  | i64 (i : Int)
-deriving Repr, DecidableEq, Inhabited
-
-def i64Min : Int := -9223372036854775808
-def i64Max : Int := 9223372036854775807
-def u64Max : Int := 18446744073709551615
-
-/-- `StreamMapKey::from_value` / `from_value_ref`: strings; numbers that are `i64`; else numbers that are
-`u64`; nothing else (floats, null, booleans, arrays, objects) -/
-def StreamMapKey.fromValue : JVal → Option StreamMapKey
-  | .str s => some (.str s)
-  | .num i =>
-    if i64Min ≤ i ∧ i ≤ i64Max then some (.i64 i)
-    else if 0 ≤ i ∧ i ≤ u64Max then some (.u64 i.toNat)
-    else none
-  | _ => none
-
-/-- `impl From<u32> for StreamMapKey` (numeric lens accessor) -/
-def StreamMapKey.ofU32 (idx : Nat) : StreamMapKey := .i64 idx
-
-/-- `to_key` -/
-def StreamMapKey.toKey : StreamMapKey → String
-  | .str s => s
-  | .u64 n => toString n
-  | .i64 i => toString i
+/-! ## `stream_map_key.rs`: `StreamMapKey`, `fromValue`, `ofU32`, `toKey` live in `Aqua/Exec/Types.lean` (same namespace) -/
 
 /-! ## `canon_stream_map.rs` -/
 
